@@ -358,6 +358,9 @@ def c02(facts, tier):
     r_slotmod.run(facts, rep, lambda p: facts.items.get(p, {}).get("file") == "src/evaluator.rs", floor_sites=6, floor_pairs=10)
     # add/sub back ends: every contribution of the second operand is selected by the subtract flag
     r_modeflag.run(facts, rep, lambda p: facts.items.get(p, {}).get("file") == "src/evaluator.rs", floor=2)
+    # multiply_many: the pairwise product tree stays in bounds for odd operand counts and keeps its products
+    n = r_contra.run_pairwise(facts, rep, {"src/evaluator.rs"})
+    rep.floor("R-CONTRA(pairs)", "pairwise-consuming loops", n, 2)
     return rep
 
 
@@ -432,8 +435,11 @@ def c03(facts, tier):
         trows.append((p, "scale", lambda y: y == M.S("scale", 0), "scale(a) unchanged"))
     M.check_table(pfm, em, rep, "CKKS", trows)
     rep.floor("R-METAFLOW(table)", "scale bookkeeping rows", len(trows), 45)
-    # scheme-independent back ends the CKKS operations share with BFV/BGV (cross-listed from C02)
     ev = lambda p: facts.items.get(p, {}).get("file") == "src/evaluator.rs"
+    pfc = project.ProjFacts(facts, "CKKS")
+    n = r_meta.check_scale_guard_level(pfc, r_meta.MetaEngine(pfc), rep, "CKKS", ev)
+    rep.floor("R-GUARD(scale-level)", "is_scale_within_bounds call sites with a tracked result", n, 3)
+    # scheme-independent back ends the CKKS operations share with BFV/BGV (cross-listed from C02)
     r_slotmod.run(facts, rep, ev, floor_sites=6, floor_pairs=10)
     r_modeflag.run(facts, rep, ev, floor=2)
     return rep
